@@ -515,7 +515,10 @@ class Interstitial(object):
             for c, d in itertools.product(range(self.dim), repeat=2):
                 Dp[:, :, c, d] += np.tensordot(gamma_i, biasP_i[:, :, c, d], ((0), (0))) + \
                                   np.tensordot(biasP_i[:, :, c, d], gamma_i, ((0), (0)))
-            Dp += np.tensordot(np.tensordot(self.VV, gamma_v, ((3), (0))), dg, ((2), (0)))
+            # NOTE: domega_ij need not be invariant under the crystal symmetry (a strain component that breaks the symmetry),
+            # so it must not be projected onto the symmetric vector basis before the Cartesian outer product
+            for c, d in itertools.product(range(self.dim), repeat=2):
+                Dp[:, :, c, d] += np.dot(gamma_i.T, np.dot(domega_ij[:, :, c, d], gamma_i))
 
         for a, b, c, d in itertools.product(range(self.dim), repeat=4):
             if a == c:
